@@ -304,22 +304,21 @@ class DiskFile(VirtualFileContainer):
                 else:
                     preamble = BasicPreamble()
 
-                preamble.read(self.buffer, self.seek_granule(starting_granule.int))
+                # The file is the concatenation of its granules in the order of its FAT chain
+                stream = self.read_granule_chain(starting_granule.int, fat)
+                data_pointer = preamble.read(stream, 0)
 
                 data_length = preamble.data_length.int
-                if data_length == 0:
+                if preamble.length == 0:
                     data_length = self.calculate_file_length(starting_granule.int, fat, bytes_in_last_sector.int)
 
-                file_data, post_pointer = self.read_data(
-                    starting_granule.int,
-                    fat,
-                    preamble=preamble,
-                    data_length=data_length,
-                )
+                if len(stream[data_pointer:]) < data_length:
+                    raise VirtualFileValidationError("Unable to read data - insufficient bytes in granule chain")
+                file_data = stream[data_pointer:data_pointer + data_length]
 
                 if preamble.is_ml():
                     postamble = Postamble()
-                    postamble.read(self.buffer, post_pointer)
+                    postamble.read(stream, data_pointer + data_length)
                     exec_addr = postamble.exec_addr
 
                 coco_file = CoCoFile(
@@ -335,6 +334,27 @@ class DiskFile(VirtualFileContainer):
                 files.append(coco_file)
 
         return files
+
+    def read_granule_chain(self, granule, fat):
+        """
+        Returns the contents of all of the granules of a file, in the order in which
+        the file allocation table chains them together.
+
+        :param granule: the granule where the file starts at
+        :param fat: the file allocation table data
+        :return: a list of the bytes stored in the granules of the file
+        """
+        stream = []
+        visited = []
+        while True:
+            if granule >= DiskConstants.TOTAL_GRANULES or granule in visited:
+                raise VirtualFileValidationError("Invalid granule chain at granule [{}]".format(granule))
+            visited.append(granule)
+            pointer = self.seek_granule(granule)
+            stream.extend(self.buffer[pointer:pointer + DiskConstants.HALF_TRACK_LEN])
+            if (fat[granule] & 0xC0) == 0xC0:
+                return stream
+            granule = fat[granule]
 
     @staticmethod
     def calculate_file_length(granule, fat, bytes_in_last_sector):
@@ -357,8 +377,9 @@ class DiskFile(VirtualFileContainer):
             fat_entry = fat[granule]
             if (fat_entry & 0xC0) == 0xC0:
                 is_last_granule = True
-                total_bytes += ((fat_entry & 0x1F) - 1) * DiskConstants.BYTES_PER_SECTOR
-                total_bytes += bytes_in_last_sector
+                if (fat_entry & 0x1F) > 0:
+                    total_bytes += ((fat_entry & 0x1F) - 1) * DiskConstants.BYTES_PER_SECTOR
+                    total_bytes += bytes_in_last_sector
             else:
                 total_bytes += DiskConstants.HALF_TRACK_LEN
                 granule = fat_entry
